@@ -3,85 +3,6 @@ import Proofs.C16EventsAgree
 namespace C16
 open Ring ClusterView
 
-structure AInv (env : Env) (st : RState) : Prop where
-  agree : Agree env st.v
-  prevIn : ∀ e ∈ st.prev, lookup st.v.ring.byId e.1 = some e.2
-  prevNodup : (keys st.prev).Nodup
-
-theorem prevIn_erase_add (r : Ring.Ring) (prev : List (Nat × RHost)) (h : RHost) (hn : lookup r.byId h.id = none)
-    (hp : ∀ e ∈ prev, e.1 ≠ h.id → lookup r.byId e.1 = some e.2) :
-    ∀ e ∈ erase prev h.id, lookup (r.addIfMissing h).1.byId e.1 = some e.2 := by
-  intro e he
-  have h1 := (mem_erase _ _ _).mp he
-  rw [lookup_add_new _ _ hn]
-  simp only [h1.2, ↓reduceIte]
-  exact hp e h1.1 h1.2
-
-theorem stepV_agree (env : Env) (st : RState) (h : RHost) (hi : AInv env st) :
-    Agree env (refreshStepV env st h).1.v ∧ ((refreshStepV env st h).2 = .ok → AInv env (refreshStepV env st h).1) := by
-  unfold refreshStepV
-  cases hf : env.filter h with
-  | true => simp only [↓reduceIte]; exact ⟨hi.agree, fun _ => hi⟩
-  | false =>
-    simp only [Bool.false_eq_true, ↓reduceIte]
-    cases hl : lookup st.v.ring.byId h.id with
-    | none =>
-      have ha := agree_addNew env st.v h hi.agree hl
-      unfold View.addNew at ha
-      rw [addIfMissing_of_none _ h hl] at ha ⊢
-      dsimp only at ha ⊢
-      refine ⟨ha, fun _ => ⟨ha, ?_, keys_erase_nodup _ _ hi.prevNodup⟩⟩
-      have := prevIn_erase_add st.v.ring st.prev h hl (fun e he _ => hi.prevIn e he)
-      rw [addIfMissing_of_none _ h hl] at this
-      exact this
-    | some e0 =>
-      rw [addIfMissing_of_some _ h e0 hl]
-      dsimp only
-      cases hlp : lookup st.prev h.id with
-      | none => exact ⟨hi.agree, fun e => by cases e⟩
-      | some ex =>
-        dsimp only
-        have hmem : (h.id, ex) ∈ st.prev := lookup_some_mem _ _ _ hlp
-        have hcur : lookup st.v.ring.byId h.id = some ex := hi.prevIn _ hmem
-        have hexid : ex.id = h.id := hi.agree.sinv.wf _ (lookup_some_mem _ _ _ hcur)
-        by_cases hcond : (h.caddr == ex.caddr && h.addr == ex.addr) = true
-        · rw [if_pos hcond]
-          refine ⟨hi.agree, fun _ => ⟨hi.agree, ?_, keys_erase_nodup _ _ hi.prevNodup⟩⟩
-          intro e he
-          exact hi.prevIn e ((mem_erase _ _ _).mp he).1
-        · rw [if_neg hcond]
-          have hcur' : lookup st.v.ring.byId ex.id = some ex := by rw [hexid]; exact hcur
-          have ha2 := agree_removeHost env st.v ex hi.agree hcur'
-          have hl2 : lookup (st.v.removeHost env ex).ring.byId h.id = none := by
-            rw [removeHost_ring, lookup_remove, hexid]; simp
-          have ha3 := agree_addNew env _ h ha2 hl2
-          unfold View.addNew at ha3
-          rw [addIfMissing_of_none _ h hl2] at ha3 ⊢
-          dsimp only at ha3 ⊢
-          refine ⟨ha3, fun _ => ⟨ha3, ?_, keys_erase_nodup _ _ hi.prevNodup⟩⟩
-          have := prevIn_erase_add (st.v.removeHost env ex).ring st.prev h hl2 (by
-            intro e he hne
-            rw [removeHost_ring, lookup_remove, hexid]
-            simp only [hne, ↓reduceIte]
-            exact hi.prevIn e he)
-          rw [addIfMissing_of_none _ h hl2] at this
-          exact this
-
-theorem loopV_agree (env : Env) (reported : List RHost) : ∀ (st : RState), AInv env st →
-    Agree env (refreshLoopV env reported st).1.v ∧ ((refreshLoopV env reported st).2 = .ok → AInv env (refreshLoopV env reported st).1) := by
-  induction reported with
-  | nil => intro st hi; exact ⟨hi.agree, fun _ => hi⟩
-  | cons h t ih =>
-    intro st hi
-    unfold refreshLoopV
-    have := stepV_agree env st h hi
-    generalize refreshStepV env st h = res at this
-    obtain ⟨st', res'⟩ := res
-    dsimp only at this ⊢
-    by_cases hr : res' = .ok
-    · rw [if_pos hr]; exact ih st' (this.2 hr)
-    · rw [if_neg hr]; exact ⟨this.1, fun e => absurd e hr⟩
-
 theorem removeAllV_agree (env : Env) (prev : List (Nat × RHost)) : ∀ (v : View), Agree env v →
     (∀ e ∈ prev, lookup v.ring.byId e.1 = some e.2) → (keys prev).Nodup → Agree env (removeAllV env v prev) := by
   induction prev with
@@ -102,22 +23,25 @@ theorem removeAllV_agree (env : Env) (prev : List (Nat × RHost)) : ∀ (v : Vie
       exact hp e (List.mem_cons_of_mem _ he)
     · exact hn.2
 
-/-- `Agree` is kept by a refresh, whatever is reported and whether it succeeds or not -/
+theorem gone_sub (env : Env) (v : View) (reported : List RHost) : ∀ e ∈ goneV env v reported, e ∈ v.ring.byId :=
+  fun e he => (List.mem_filter.mp he).1
+
+theorem gone_nodup (env : Env) (v : View) (hn : (keys v.ring.byId).Nodup) (reported : List RHost) :
+    (keys (goneV env v reported)).Nodup := by
+  unfold goneV goneOf keys at *
+  exact List.Sublist.nodup (List.Sublist.map _ List.filter_sublist) hn
+
+/-- `Agree` holds after pass 1 -/
+theorem agree_pass1 (env : Env) (v : View) (ha : Agree env v) (reported : List RHost) :
+    Agree env (removeAllV env v (goneV env v reported)) :=
+  removeAllV_agree env _ v ha (fun e he => lookup_of_mem_nodup _ ha.sinv.knodup e (gone_sub env v reported e he))
+    (gone_nodup env v ha.sinv.knodup reported)
+
+/-- `Agree` is kept by a refresh, whatever is reported -/
 theorem agree_refresh (env : Env) (v : View) (ha : Agree env v) (reported : List RHost) :
-    Agree env (v.refresh env reported).1 := by
-  have h0 : AInv env ⟨v, v.ring.byId⟩ :=
-    ⟨ha, fun e he => lookup_of_mem_nodup _ ha.sinv.knodup e he, ha.sinv.knodup⟩
-  have := loopV_agree env reported ⟨v, v.ring.byId⟩ h0
-  unfold View.refresh
-  generalize refreshLoopV env reported ⟨v, v.ring.byId⟩ = res at this
-  obtain ⟨st', res'⟩ := res
-  dsimp only at this
-  cases res' with
-  | ok =>
-    have hi := this.2 rfl
-    exact removeAllV_agree env st'.prev st'.v hi.agree hi.prevIn hi.prevNodup
-  | errCannotFind => exact this.1
-  | errAlreadyExists => exact this.1
+    Agree env (v.refresh env reported) := by
+  rw [refreshV_eq]
+  exact addAllV_preserves env (Agree env) (fun w h hw hl => agree_addNew env w h hw hl) _ _ (agree_pass1 env v ha reported)
 
 /-! the handlers -/
 
